@@ -1,11 +1,13 @@
-"""C20 - monitors give back exactly what was recorded (in-memory half).
+"""C20 - monitors give back exactly what was recorded, in memory and through their files.
 
 Real code executed: monitors.Monitor.__call__/__len__/__getitem__/__add__/extend/prepend/get_x/get_y/_get_y/_k,
-tools.listify/_kdiv/_multiply/_divide/_idivide/_cmultiply.
-Symbolic: every recorded parameter vector, cost (scalar or 2-vector), id, and the scaling factors k != 0.
-Enumerated: operation programs over two monitors.  A shadow list kept by the harness is the oracle.
-NOT claimed: the file half (LoggingMonitor / munge readers) - decimal float printing and parsing has no solver
-encoding; see DESIGN.md section 6.
+tools.listify/_kdiv/_multiply/_divide/_idivide/_cmultiply; monitors.LoggingMonitor.__init__/__call__,
+munge.logfile_reader/read_trajectories/read_history/read_monitor/write_monitor/raw_to_support/raw_to_converge/
+write_raw_file/write_support_file/write_converge_file/read_raw_file/read_support_file/read_converge_file/read_import/_process_ids.
+Symbolic: every recorded parameter vector, cost (scalar or 2-vector), id (integer or None), the scaling factors k != 0.
+Enumerated: operation programs over two monitors; number of records, containers, intervals.  A shadow list kept by the
+harness is the oracle.  In the file half symbolic scalars are printed as tokens that evaluate back to themselves
+(symex.values.TOKEN_REPR): the decimal text of floats is NOT decided, the structure of the files is.
 """
 import itertools
 from symex.engine import Instance
@@ -19,9 +21,10 @@ LEVEL = 'model_checking'
 ASSUMPTIONS = [
     'floats modelled as exact reals: "cost scaling by k is transparent" is (y*k)/k == y in real arithmetic (rounding outside the claim); k != 0',
     'ids are integers or None; parameters are lists of reals (dimension <= 2); costs are reals or 2-vectors of reals',
-    'file round trips (LoggingMonitor, logfile_reader, read_history, write_*_file / read_*) are NOT claimed: no solver theory of decimal float formatting',
+    'file round trips: symbolic scalars are written as tokens (Python expressions evaluating back to the same symbol), so decimal float formatting / parsing is outside the claim; the concrete specials inf, -inf, nan and every replayed witness go through the real formatting',
+    'files live in a fresh temporary directory per execution; importlib caches are invalidated before a written .py file is imported by the readers',
 ]
-BOUNDS = {'quick': dict(monitors=2, program_length='<=3', dim='1..2'), 'thorough': dict(monitors=2, program_length='<=4', dim='1..2')}
+BOUNDS = {'quick': dict(monitors=2, program_length='<=3', dim='1..2', file_records='2..4', intervals='1..3'), 'thorough': dict(monitors=2, program_length='<=4', dim='1..3', file_records='1..5', intervals='1..3')}
 BUDGET = {'quick': 1800, 'thorough': 1800}
 
 OPS = ('callA', 'callB', 'extend', 'prepend', 'add', 'slice', 'index', 'listindex')
@@ -110,9 +113,229 @@ def program(prog, dim, kmode, vector_y):
     return h
 
 
-def instances(tier, seed):
+# ----------------------------------------------------------------------------- the file half
+# Symbolic scalars are written as tokens (symex.values.TOKEN_REPR): Python expressions that the readers' eval / import turn back
+# into the very same symbolic object.  So WHICH fields are written for which call, in which order and nesting, how ids / scaling
+# / intervals / containers are treated and how the lines are parsed back is decided by the solver over all values and ids;
+# the decimal text of a float is not (concrete special values inf, -inf, nan and the replayed witnesses go through the real
+# formatting).
+import math
+import os
+import shutil
+import tempfile
+import uuid
+
+INF = float('inf')
+NAN = float('nan')
+
+
+def same(a, b):
+    """parsed value a is the recorded value b (nan-aware for the concrete special values)"""
+    if isinstance(b, float) and math.isnan(b):
+        return const(isinstance(a, float) and math.isnan(a))
+    if isinstance(a, float) and math.isnan(a):
+        return const(False)
+    return eq(L.scalar(a), b)
+
+
+def flat(v):
+    """numbers of a nested list / tuple / array structure in reading order"""
+    import numpy
+    if isinstance(v, (list, tuple)) or (isinstance(v, numpy.ndarray) and v.ndim > 0):
+        out = []
+        for e in v:
+            out += flat(e)
+        return out
+    return [v]
+
+
+def same_seq(a, b):
+    a, b = flat(a), flat(b)
+    if len(a) != len(b):
+        return const(False)
+    return And(*[same(u, v) for u, v in zip(a, b)]) if a else const(True)
+
+
+def record(ctx, i, dim, idmode, xkind, ykind):
+    x = list(ctx.reals('x%d_' % i, dim))
+    if xkind == 'special' and i == 0:
+        x[0] = -INF
+    if ykind == 'vector':
+        y = list(ctx.reals('y%d_' % i, 2))
+    elif ykind == 'special':
+        y = (INF, NAN, -INF)[i % 3]
+    else:
+        y = ctx.real('y%d' % i)
+    if idmode == 'none' or (idmode == 'mixed' and i % 2):
+        ident = None
+    else:
+        ident = ctx.int('id%d' % i, 0, 2)
+    xarg = tuple(x) if xkind == 'tuple' else (L.arr(x) if xkind == 'array' else (x[0] if xkind == 'scalar' else list(x)))
+    yarg = tuple(y) if ykind == 'vector' and i % 2 else (list(y) if ykind == 'vector' else y)
+    return x, y, ident, xarg, yarg
+
+
+def _setup(ctx):
+    import numbers
+    from symex import values as V
+    numbers.Integral.register(V.SInt)          # ids are integers for mystic's isinstance tests
+    V.TOKEN_REPR = Ctx.mode == 'sym'
+    return V, tempfile.mkdtemp(prefix='verif-c20-')
+
+
+def id_is(a, ident):
+    if ident is None:
+        return const(a is None)
+    if a is None:
+        return const(False)
+    return eq(a, ident)
+
+
+def logfile(n, dim, idmode, xkind, ykind, interval, kmode):
+    """LoggingMonitor -> log file -> logfile_reader / read_trajectories / read_history"""
+    def h(ctx):
+        from mystic.monitors import LoggingMonitor
+        import mystic.munge as mg
+        V, d = _setup(ctx)
+        fn = os.path.join(d, 'log.txt')
+        try:
+            if kmode == 'none':
+                m = LoggingMonitor(interval, fn)
+            else:
+                k = ctx.real('k') if kmode == 'sym' else -1
+                if kmode == 'sym':
+                    ctx.assume(ne(k, 0))
+                m = LoggingMonitor(interval, fn, k=k)
+            recs = []
+            for i in range(n):
+                x, y, ident, xarg, yarg = record(ctx, i, dim, idmode, xkind, ykind)
+                if ident is None:
+                    m(xarg, yarg)
+                else:
+                    m(xarg, yarg, ident)
+                recs.append((x, y, ident))
+            try:
+                step, param, cost = mg.logfile_reader(fn, iter=True)
+                param2, cost2 = mg.read_trajectories(fn)
+                # (read_history of a MONITOR that recorded bare scalars as parameters raises in mystic; only the file side is checked then)
+                hist_file = mg.read_history(fn) if interval == 1 and xkind != 'scalar' else None
+                hist_mon = mg.read_history(m) if interval == 1 and xkind != 'scalar' else None
+            except Exception as e:
+                ctx.note('reader raised %s: %s' % (type(e).__name__, e))
+                return [('what-was-written-can-be-read-back', const(False))]
+        finally:
+            V.TOKEN_REPR = False
+            shutil.rmtree(d, ignore_errors=True)
+        logged = [i for i in range(n) if i % interval == 0]
+        obs = [('one-line-per-logged-call', const(len(step) == len(logged) and len(param) == len(logged) and len(cost) == len(logged)))]
+        if len(step) != len(logged) or len(param) != len(logged) or len(cost) != len(logged):
+            return obs
+        for j, i in enumerate(logged):
+            x, y, ident = recs[i]
+            st = step[j]
+            obs.append(('iteration[%d]' % i, const(isinstance(st, tuple) and len(st) == (1 if ident is None else 2) and st[0] == i)))
+            if ident is not None and isinstance(st, tuple) and len(st) == 2:
+                obs.append(('id[%d]' % i, id_is(st[1], ident)))
+            obs.append(('params[%d]' % i, same_seq(param[j], x)))
+            obs.append(('cost[%d]' % i, same_seq(cost[j], y)))
+            obs.append(('cost-keeps-shape[%d]' % i, const(isinstance(cost[j], (list, tuple)) == isinstance(y, list))))
+        obs.append(('read_trajectories==logfile_reader', And(same_seq(param2, param), same_seq(cost2, cost))))
+        if hist_file is not None:
+            obs.append(('read_history(file)==read_history(monitor)', And(same_seq(hist_file[0], hist_mon[0]), same_seq(hist_file[1], hist_mon[1]))))
+            # ... and that is the recorded trajectory, one parameter at a time
+            obs.append(('read_history-is-the-trajectory', And(same_seq(hist_mon[0], [[r[0][c] for r in recs] for c in range(dim)]),
+                                                               same_seq(hist_mon[1], [r[1] for r in recs]))))
+        return obs
+    return h
+
+
+def pyfile(kind, n, dim, idmode, ykind):
+    """Monitor -> write_raw_file / write_support_file / write_converge_file -> matching reader and read_history"""
+    def h(ctx):
+        from mystic.monitors import Monitor
+        import mystic.munge as mg
+        V, d = _setup(ctx)
+        fn = os.path.join(d, 'p%s.py' % uuid.uuid4().hex[:12])          # (imported by name: a fresh module name per execution)
+        try:
+            m = Monitor()
+            recs = []
+            for i in range(n):
+                x, y, ident, xarg, yarg = record(ctx, i, dim, idmode, 'list', ykind)
+                if ident is None:
+                    m(xarg, yarg)
+                else:
+                    m(xarg, yarg, ident)
+                recs.append((x, y, ident))
+            writer = dict(raw=mg.write_raw_file, support=mg.write_support_file, converge=mg.write_converge_file)[kind]
+            reader = dict(raw=mg.read_raw_file, support=mg.read_support_file, converge=mg.read_converge_file)[kind]
+            writer(m, fn)
+            import importlib
+            importlib.invalidate_caches()        # (the readers import the file by name from '.'; directory listings are cached per path entry)
+            try:
+                got = reader(fn, iter=True)
+                ids = got[0]
+                params, cost = (got[1], got[2]) if kind == 'raw' else got[1]
+                plain = reader(fn)
+                hist = mg.read_history(fn) if kind == 'support' else None
+                hist_mon = mg.read_history(m) if kind == 'support' else None
+            except Exception as e:
+                ctx.note('reader raised %s: %s' % (type(e).__name__, e))
+                return [('what-was-written-can-be-read-back', const(False))]
+        finally:
+            V.TOKEN_REPR = False
+            shutil.rmtree(d, ignore_errors=True)
+        obs = []
+        by_call = [r[0] for r in recs]
+        by_param = [[r[0][c] for r in recs] for c in range(dim)]
+        obs.append(('params-are-the-trajectory', same_seq(params, by_param if kind == 'support' else by_call)))
+        obs.append(('cost-is-the-trajectory', same_seq(cost, [r[1] for r in recs])))
+        obs.append(('reader-without-iter-agrees', And(same_seq(plain[0], params), same_seq(plain[1], cost))))
+        obs.append(('one-iteration-entry-per-call', const(ids is not None and len(ids) == n)))
+        if ids is not None and len(ids) == n:
+            allnone = all(r[2] is None for r in recs)
+            for i in range(n):
+                if allnone:
+                    obs.append(('iteration[%d]' % i, const(tuple(ids[i]) == (i,))))
+                else:
+                    obs.append(('id[%d]' % i, id_is(ids[i][-1], recs[i][2]) if len(ids[i]) == 2 else const(False)))
+        if hist is not None:
+            obs.append(('read_history(file)==read_history(monitor)', And(same_seq(hist[0], hist_mon[0]), same_seq(hist[1], hist_mon[1]))))
+        return obs
+    return h
+
+
+def file_instances(tier):
     q = tier == 'quick'
     out = []
+    grid = []
+    for n in ((2,) if q else (1, 2, 3)):
+        for idmode in ('none', 'sym', 'mixed'):
+            for xkind in ('list', 'array') if q else ('list', 'tuple', 'array'):
+                grid.append((n, 2, idmode, xkind, 'scalar', 1, 'none'))
+        grid.append((n, 1, 'sym', 'scalar', 'scalar', 1, 'none'))
+        grid.append((n, 1, 'none', 'list', 'vector', 1, 'none'))
+        grid.append((n, 2, 'sym', 'list', 'vector', 1, 'sym'))
+        grid.append((n, 1, 'none', 'list', 'scalar', 1, 'sym'))
+        grid.append((n, 1, 'sym', 'list', 'scalar', 1, 'int'))
+        grid.append((n, 2, 'mixed', 'special', 'special', 1, 'none'))
+    grid.append((3, 1, 'sym', 'list', 'scalar', 2, 'none'))
+    grid.append((4, 1, 'none', 'list', 'scalar', 3, 'sym'))
+    if not q:
+        grid.append((5, 2, 'mixed', 'array', 'vector', 2, 'none'))
+        grid.append((3, 3, 'sym', 'array', 'special', 1, 'none'))
+    for g in grid:
+        out.append(Instance('logfile/n=%d/dim=%d/id=%s/x=%s/y=%s/interval=%d/k=%s' % g, logfile(*g)))
+    for kind in ('raw', 'support', 'converge'):
+        for n in ((2,) if q else (1, 2, 3)):
+            for idmode in ('none', 'sym', 'mixed'):
+                for ykind in ('scalar',) if (q and idmode != 'sym') else ('scalar', 'special', 'vector'):
+                    out.append(Instance('pyfile/%s/n=%d/dim=2/id=%s/y=%s' % (kind, n, idmode, ykind), pyfile(kind, n, 2, idmode, ykind)))
+    return out
+
+
+def instances(tier, seed):
+    q = tier == 'quick'
+    out = file_instances(tier)
     Lmax = 3 if q else 4
     progs = []
     for l in range(1, Lmax + 1):
